@@ -46,6 +46,15 @@ package localfs
 //@ func (*localFS).KeysPrefix
 //@   requires l != nil && count > 0
 //@   ensures [page-size] ret2 == nil ==> len(ret0) <= count
+// pagination over the scan: a page is the next `count` entries after the token; the continuation token is
+// the entry right after the page, and there is none exactly when the page reaches the end of the scan
+//@   ensures [window] ret2 == nil && len(ret0) > 0 ==> ret0 == search[start:end] && end == min(start+count, len(search))
+//@   ensures [continuation] ret2 == nil && ret1 != "" ==> start+count < len(search) && ret1 == search[start+count]
+//@   ensures [no-token-after-the-last-page] ret2 == nil && len(ret0) > 0 && end == len(search) ==> ret1 == ""
+// the scan is cached only for the duration of one listing: once a listing ends (no continuation token) the
+// cache entry is gone, so the next listing of that prefix sees the store as it is then (the listing ends
+// with the page that reaches the end of the scan, or with an empty page)
+//@   ensures [scan-dropped-when-listing-ends] ret2 == nil && (len(ret0) == 0 || end == len(search)) ==> !has(l.glob, prefix#1)
 // lexicographic order of the returned page: known finding K9 (walk order, never sorted)
 //@   ensures [sorted] ret2 == nil ==> (forall i int :: 0 <= i && i + 1 < len(ret0) ==> !strlt(ret0[i+1], ret0[i]))
 // the matching prefix must be the one the caller gave (a trailing "/" is significant): known finding K8
